@@ -19,6 +19,7 @@ def run(ctx):
     else:
         cfgs = [
             (dict(R=3, B=1, C=2, Cap=2, F=0, kinds=[]), 60, 150),
+            (dict(R=4, B=2, C=2, Cap=2, F=0, kinds=[]), 60, 150),      # two records per worker: >= 3 results in one group
             (dict(R=2, B=1, C=1, Cap=1, F=0, kinds=[]), 5, 20),
         ]
     for k, nw, ns in cfgs:
